@@ -74,12 +74,15 @@ pub fn run(case: &Value) -> Value {
     }
     // a failed operation leaves a partial state that nobody relies on (the build phase fails): then only the
     // outcomes are compared; when every operation succeeded in both processes the trees must be identical
+    // designed histories whose only failure is deterministic by construction (a single missing exec.d source: no
+    // unordered container is involved) set "cmp_failed": what a failed call leaves behind must then be identical too
     let all_ok = ok_vectors.iter().all(|v| v.iter().all(|b| *b));
-    let equal = ok_vectors[0] == ok_vectors[1] && (!all_ok || dumps[0].1 == dumps[1].1);
+    let cmp = all_ok || case["cmp_failed"] == true;
+    let equal = ok_vectors[0] == ok_vectors[1] && (!cmp || dumps[0].1 == dumps[1].1);
     let diff = dumps[0].1.iter().zip(dumps[1].1.iter()).find(|(a, b)| a != b).map(|(a, b)| json!({"a": [a.0, a.1, String::from_utf8_lossy(&a.2)], "b": [b.0, b.1, String::from_utf8_lossy(&b.2)]}));
     let files = dumps[0].1.len();
     let bytes: usize = dumps[0].1.iter().map(|x| x.2.len()).sum();
     fsutil::destroy(&base);
-    json!({"id": case["id"], "equal": equal && dumps[0].0 && dumps[1].0, "all_ok": all_ok, "files": if all_ok { files } else { 0 }, "bytes": bytes, "diff": diff,
+    json!({"id": case["id"], "equal": equal && dumps[0].0 && dumps[1].0, "all_ok": all_ok, "files": if cmp { files } else { 0 }, "bytes": bytes, "diff": diff,
            "len": [dumps[0].1.len(), dumps[1].1.len()]})
 }
